@@ -1,4 +1,4 @@
 Require Extraction.
 Require Import ExtrOcamlBasic.
-From GR Require Import Base.Bytes Model.StreamModel Model.LineModel.
-Extraction "line_model.ml" lapply lrun linit.
+From GR Require Import Base.Bytes Model.StreamModel Model.LineModel Model.LinePtrModel.
+Extraction "line_model.ml" lapply lrun linit papply just_skeleton toggle_dir.
